@@ -16,6 +16,13 @@ PASS = [False, True, False, False, False]  # pass-through node <=> exactly one c
 
 def run(ctx, col, tier):
     repo = ctx.repo
+    col.rule("R-MEMO", "nothing computed from the tree is kept on the tree / node / path / branch object: outside construction and setters no "
+             "method of these classes stores to self -- copies are deep and topology and coordinates are then edited in place (re-rooting, "
+             "concatenation, node setters, transforms), so a kept decomposition or measure describes the tree before the edit; zero expected, "
+             "positive examples are those of the transform-state lint", floor=1)
+    from ..rules import stateless as _stateless
+    _stateless.check_memo(ctx, col, "R-MEMO", ("swcgeom.core.tree", "swcgeom.core.path", "swcgeom.core.node", "swcgeom.core.branch",
+                                               "swcgeom.core.compartment", "swcgeom.core.branch_tree", "swcgeom.core.swc", "swcgeom.core.segment"))
     col.rule("R-FLUSH", "the chain still open when the post-order accumulation returns to the "
              "outermost call (the stem of a root with one child, or a whole unbranched chain) is "
              "closed into a branch: consumed at the call site or closed by a root-specific arm",
